@@ -31,21 +31,32 @@ RunOK == Live => R.run_err = ""
 \* every ammo was fired: the instances went on after each response
 AllFired == Live => R.fired = R.shots /\ R.answered = R.shots
 
-Letters == {R.ammo[j] : j \in 1..Len(R.ammo)}
-Shots(x) == Cardinality({j \in 1..Len(R.ammo) : R.ammo[j] = x})
-StepName(k, n) == IF n = 1 /\ R.gun \in {"http", "http2", "connect", "grpc"} THEN "" ELSE <<"a", "b">>[k]
+\* Which ammo were shot?  With several instances a token is not tied to an ammo: when the last tokens are
+\* taken, an instance may already hold the NEXT ammo of the ring (position shots+1 ..) and win the token,
+\* while the holder of an earlier one goes empty-handed.  So the shots are `shots` of the first
+\* shots+inst-1 ring positions and include the first shots-inst+1 (single instance: exactly the first `shots`).
+Ext == R.ammo \o SubSeq(R.ammo, 1, R.inst - 1)
+CountIn(x, n) == Cardinality({j \in 1..n : Ext[j] = x})
+Letters == {Ext[j] : j \in 1..Len(Ext)}
+First == IF R.gun \in {"http", "http2", "connect", "grpc"} THEN "" ELSE "a"
+StepName(k, n) == IF k = 1 THEN First ELSE "b"
+ShotsWith(x) == Cardinality({j \in 1..Len(R.samples) : R.samples[j].letter = x /\ R.samples[j].step = First})
 
 Matches(s, e) == /\ (IF e.proto = GE400 THEN s.proto >= 400 ELSE s.proto = e.proto)
                  /\ s.err = e.err
                  /\ s.empty = e.failed
 
-\* per letter: exactly the samples Outcome demands, one set per shot
-SamplesOK == Live => \A x \in Letters :
-    LET exp == Outcome(R.gun, x, R.posts)
-        mine == {j \in 1..Len(R.samples) : R.samples[j].letter = x}
-    IN /\ Cardinality(mine) = Shots(x) * Len(exp)
-       /\ \A k \in 1..Len(exp) :
-            Cardinality({j \in mine : R.samples[j].step = StepName(k, Len(exp)) /\ Matches(R.samples[j], exp[k])}) = Shots(x)
+\* every shot yields its first-step sample; per letter exactly the samples Outcome demands, one set per shot
+SamplesOK == Live =>
+    /\ Cardinality({j \in 1..Len(R.samples) : R.samples[j].step = First}) = R.shots
+    /\ \A x \in Letters :
+         LET exp == Outcome(R.gun, x, R.posts)
+             n == ShotsWith(x)
+             mine == {j \in 1..Len(R.samples) : R.samples[j].letter = x}
+         IN /\ CountIn(x, R.shots - R.inst + 1) <= n /\ n <= CountIn(x, R.shots + R.inst - 1)
+            /\ Cardinality(mine) = n * Len(exp)
+            /\ \A k \in 1..Len(exp) :
+                 Cardinality({j \in mine : R.samples[j].step = StepName(k, Len(exp)) /\ Matches(R.samples[j], exp[k])}) = n
 \* and nothing else
 NoStray == Live => \A j \in 1..Len(R.samples) : R.samples[j].letter \in Letters
 \* the run is one the alphabet knows
